@@ -69,6 +69,11 @@ pub fn check(case: &Case, rec: &mut Rec) -> Option<Failure> {
                     if !ok {
                         return fail(case, "bar-differs-from-field", format!("op {}: next(&bar {:?}) = {:?} but next({:e}) = {:?}", i, b, ob, x, os));
                     }
+                    // after a non-finite one-price bar the two TrueRange paths legitimately differ
+                    // (f64::max drops the NaN distance): the one-price claim is compared up to that bar
+                    if case.kind == "one-price" && !x.is_finite() {
+                        break;
+                    }
                 }
             }
             None
@@ -157,6 +162,11 @@ pub fn generate(r: &mut Runner) {
                 let regime = *r.rng.pick(gen::REGIMES);
                 let xs = gen::stream(&mut r.rng, regime, len, false, scale);
                 c.ops = xs.into_iter().map(|x| Op::Bar(B { o: x, h: x, l: x, c: x, v: 1.0 })).collect();
+                if i % 3 == 0 && c.ops.len() > 2 {
+                    let at = r.rng.range(1, c.ops.len() - 1);
+                    let w = *r.rng.pick(&[f64::NAN, f64::INFINITY, f64::NEG_INFINITY]);
+                    c.ops[at] = Op::Bar(B { o: w, h: w, l: w, c: w, v: 1.0 });
+                }
             }
             "dataitem" => {
                 let regime = *r.rng.pick(gen::REGIMES);
